@@ -104,6 +104,27 @@ fixed("C10", "5343c07", "Ridge2FoldCV kept rounding-noise singular directions (n
 # ------------------------------------------------------------------ C13
 fixed("C13", "995e325", "global/pointwise_global_reconstruction_distortion raised a broadcasting error whenever X had more features than Y (e.g. 40x5 vs 40x3)")
 
+# ------------------------------------------------------------------ C17
+import vlib.props.c17 as _c17
+
+_k4 = _c17.gen(common.case_rng("C17", "quick", 0, 3), "quick", 3)
+known(
+    "C17",
+    "K4",
+    "with a periodic cell, shifting descriptors or grid points by whole cell lengths changes the log-densities by O(0.1-100): the "
+    "periodic covariance takes sin(X) * 2pi/L instead of sin(2pi X / L) for its circular mean, so bandwidths depend on the image chosen",
+    "_covariance (neighbors/_sparsekde.py) circular mean; classifier: the relation holds once the run is repeated with a reference "
+    "_covariance (correct circular mean) substituted from the harness",
+    "tests/test_neighbors.py::test_covariance_periodic and ::test_sparse_kde_periodic pin values computed with the shipped formula",
+    _k4,
+    "the quick-tier case C17/seed 0/index 3: %d descriptors in %d dimensions (%s cloud), %d grid points, cell %s, image shifts of the grid points"
+    % (len(_k4["D"]), _k4["D"].shape[1], _k4["kind"], _k4["M"], np.round(_k4["cell"], 3).tolist()),
+)
+fixed("C17", "8cb8ec0", "SparseKDE with a small fspread (e.g. 0.1) raised a broadcasting error in the spread-based localisation")
+fixed("C17", "d84e962", "SparseKDE.score_samples raised IndexError when a query fell within the cut-off of a grid point with no assigned descriptor (off-sample grids)")
+fixed("C17", "49262aa", "effdim: 0*log(0)=NaN bandwidths for clouds constant in one coordinate / collinear; spurious 'not positive definite' for an eigenvalue of -2e-15 beside O(1) ones")
+fixed("C17", "e290dd5", "oas shrinkage coefficient outside [0,1] (2.4-9.5 at local populations ~1) gave bandwidths with negative eigenvalues (-1.6 ... -6.3)")
+
 if __name__ == "__main__":
     out = {
         "comment": "Genuine defects of scikit-matter found by the monitors. status=known: recorded, not repaired, keyed by "
